@@ -261,7 +261,8 @@ impl Tokenizer<'_> {
     fn finish_outer_attribute(&mut self, start: ByteIndex, end: ByteIndex) -> Result<(), KikiErr> {
         let mut stack = Vec::new();
         let bracket_start = ByteIndex(start.0 + "#".len());
-        for (current_index, current) in self.src[bracket_start.0..end.0].char_indices() {
+        for (relative_index, current) in self.src[bracket_start.0..end.0].char_indices() {
+            let current_index = bracket_start.0 + relative_index;
             match current {
                 '(' | '[' | '{' => {
                     stack.push(current);
